@@ -58,6 +58,12 @@ def _same(ctx, p, ref):
   return And(*cl) if cl else True
 
 
+def _exact(ctx, p, clause):
+  """exact (int/Fraction) inputs must give exact coefficients - never a rounded float"""
+  ctx.prove_native(all(not isinstance(v, float) for v in _terms(p).values()), "exact-coefficients-stay-exact",
+                   "%s: %r" % (clause, {k: type(v).__name__ for k, v in _terms(p).items()}))
+
+
 def _nozero(ctx, p, clause):
   for k, v in _terms(p).items():
     ctx.prove(v != 0, "no-zero-coefficient-stored", "%s power %s" % (clause, k))
@@ -124,6 +130,7 @@ def h_pow(ctx, cfg):
   R = P ** n
   _observe(ctx, R)
   ctx.prove(_same(ctx, R, ref), "pow-is-n-fold-product", "n=%d" % n)
+  _exact(ctx, R, "pow")
   _nozero(ctx, R, "pow")
 
 
@@ -185,7 +192,7 @@ def h_calculus(ctx, cfg):
   ctx.prove(_same(ctx, (P * Q).diff(), _radd(_rmul(_rdiff(pc), qc), _rmul(pc, _rdiff(qc)))),
             "diff-product-rule")
   ctx.prove(_same(ctx, P.diff(2), _rdiff(_rdiff(pc))), "diff-n-is-iterated")
-  _nozero(ctx, P.diff(), "diff")
+  _nozero(ctx, P.diff(), "diff"); _exact(ctx, P.diff(), "diff"); _exact(ctx, P * Q, "mul"); _exact(ctx, P + Q, "add")
   has_m1 = (-1 in pc) and bool(pc[-1] != 0)
   try:
     I = P.integrate()
@@ -195,6 +202,7 @@ def h_calculus(ctx, cfg):
   ctx.prove(raised == has_m1, "integrate-refuses-x^-1", "raised=%s" % raised)
   if not raised:
     ctx.prove(_same(ctx, I.diff(), pc), "diff-undoes-integrate")
+    _exact(ctx, I, "integrate"); _exact(ctx, I.diff(), "diff(integrate)")
     ctx.prove(_same(ctx, I, {k + 1: v / (k + 1) for k, v in pc.items() if k != -1}), "integrate-is-termwise")
     _nozero(ctx, I, "integrate")
 
